@@ -1,4 +1,5 @@
 import Avfs.Lemmas.Search
+import Avfs.Lemmas.Namei
 /-
   C04 — symbolic links resolve as the kernel resolves them.
   Subject: `searchLoop` / `searchNode` (memfs_internal.go) with the PathIterator splice (`Iter.replacePart`),
@@ -30,5 +31,23 @@ theorem C04_noent_sound (s : Store) (root : Ino) (v : View) (hwf : WF s root) (h
     (p : Bytes) (m : SlMode) (hm : m ≠ .stat) (he : (searchNode s v p m).err = .noent) :
     s.child (searchNode s v p m).parent (partOf (searchNode s v p m).pi) = none :=
   (search_noentChild s root v hwf hn hv p m he).2 hm
+
+/-- searchNode ≃ namei where no symbolic link is met: on a clean absolute path "/c1/…/cn" the iterator-driven walk of
+    MemFS is the component-by-component descent through the directory entries (`walkPath`: look the name up in the
+    current directory, whose search permission is required; enter directories; stop at files) — same error class,
+    same parent, same child, for every follow mode, every tree satisfying the invariant and every user. -/
+theorem C04_searchNode_eq_walkPath (s : Store) (root : Ino) (v : View) (hwf : WF s root) (hn : NamesOK s) (hv : ViewOK s v)
+    (hroot : v.root = root) (cs : List Bytes) (hall : ∀ c ∈ cs, c ≠ [] ∧ ∀ x ∈ c, x ≠ SL)
+    (hdots : ∀ c ∈ cs, c ≠ [DOT] ∧ c ≠ [DOT, DOT]) (m : SlMode) :
+    let p := SL :: joinWith SL cs
+    let r := searchNode s v p m
+    match walkPath s v root cs with
+    | .found par c => r.err = .exists ∧ r.child = some c ∧ r.parent = par
+    | .missingLast par _ => r.err = .noent ∧ r.child = none ∧ r.parent = par ∧ r.pi.isLast = true
+    | .missingDir => r.err = .noent ∧ r.pi.isLast = false
+    | .notDir => r.err = .notdir
+    | .denied => r.err = .acces
+    | .viaLink => True :=
+  searchNode_eq_walkPath s root v hwf hn hv hroot cs hall hdots m
 
 end Avfs.FS
